@@ -15,7 +15,7 @@ BLOCK_CONTAINERS = {"Root", "Blockquote", "ListItem"}
 LISTS = {"BulletList", "OrderedList"}
 LEAF_BLOCKS_INLINE = {"Paragraph", "ATXHeading", "SetextHeader"}
 LEAF_BLOCKS = {"ThematicBreak", "CodeBlock", "CodeFence", "HtmlBlock", "CustomBlock", "CustomCore"}
-INLINE_CONTAINERS = {"Em", "Strong", "Strikethrough", "Link", "Image", "CodeInline", "Autolink"}
+INLINE_CONTAINERS = {"Em", "Strong", "Strikethrough", "Link", "Image", "CodeInline", "Autolink", "CustomPair"}
 INLINE_LEAVES = {"Text", "TextSpecial", "Softbreak", "Hardbreak", "HtmlInline", "CustomInline"}
 FINAL = BLOCK_CONTAINERS | LISTS | LEAF_BLOCKS_INLINE | LEAF_BLOCKS | INLINE_CONTAINERS | INLINE_LEAVES
 EDGE = ["*", "**a", "a**", "* a *", "*a", "a*", "_", "__", "*_*", "**", "***", "a * b", "*a*b*", "~~", "~a~", "a~~b", "**a*", "*a**", "_a*", "*[a*](u)", "[*a](u)*", "- *a\n- b*",
